@@ -170,6 +170,34 @@ func c05DumpReplays(dir string) {
 		_ = os.WriteFile(filepath.Join(dir, "json-fillslicevalue-ptr-defined-elem-panic.json"), b, 0o644)
 	}
 	{
+		// round 8 findings (open): pointer-to-collection fields, range= on a present optional=<dep> field,
+		// typed Go maps whose element type only shares the kind with the field's element type
+		dump := func(rule, id string, c c05Case) {
+			raw, _ := json.Marshal(c)
+			rf := kit.ReplayFile{Property: "C05", Rule: rule, Known: id, Case: raw,
+				Message: "minimal input of finding " + id + " on f1e5d0a: " + c05Describe(&c)}
+			b, _ := json.MarshalIndent(rf, "", " ")
+			_ = os.WriteFile(filepath.Join(dir, rule+"-"+id+".json"), b, 0o644)
+		}
+		dump("json", "ptr-to-collection-panic", c05One(c05Typ{K: "map", P: true, E: &c05Typ{K: "int"}}, nil, c05Obj(c05KV{K: "k", V: c05Num("1")})))
+		ps := c05One(c05Typ{K: "slice", P: true, E: &c05Typ{K: "int"}}, nil, c05Arr())
+		dump("yaml", "ptr-to-collection-panic", ps)
+		od := c05Case{S: []c05Fld{
+			{W: []string{"a"}, T: c05Typ{K: "int"}, Tag: "json", KS: "camel", Opt: true},
+			{W: []string{"b"}, T: c05Typ{K: "int"}, Tag: "json", KS: "camel", Opt: true, OD: "a0", Rng: &c05Rng{L: "1", R: "5", LI: true, RI: true}},
+		}, D: c05Obj(c05KV{K: "a0", V: c05Num("1")}, c05KV{K: "b1", V: c05Num("100")})}
+		dump("json", "optional-dep-range-dropped", od)
+		tm := c05One(c05Typ{K: "map", E: &c05Typ{K: "int", D: true}}, func(f *c05Fld) { f.Tag = "key" }, c05Obj(c05KV{K: "k", V: c05Num("1")}))
+		tm.EP, tm.NM = "native", 1
+		for tm.FP = 0; tm.FP < 1000; tm.FP++ {
+			m := c05NativeDoc(tm.S, &tm.D, c05Mix(uint64(tm.FP), 1), nil)
+			if _, ok := m[tm.S[0].key(0)].(map[string]int); ok {
+				break
+			}
+		}
+		dump("native", "typed-map-elem-kind-only-panic", tm)
+	}
+	{
 		nd := c05NestedDefaultCase()
 		raw, _ := json.Marshal(nd)
 		rf := kit.ReplayFile{Property: "C05", Rule: "json", Case: raw,
